@@ -238,10 +238,10 @@ class H4LocationService(Base):
             if n + pending > 1:
                 bad.append(dict(kind="unicast_sent_and_still_buffered", request=name.decode()))
             if n == 0 and pending == 0:
-                # allowed only if the lookup was abandoned after the final retry
-                lsq = sum(1 for p in fr if p["kind"] == "ls_request")
-                if lsq < 2:
-                    bad.append(dict(kind="unicast_request_lost", request=name.decode(), ls_requests=lsq, frames=[p["kind"] for p in fr]))
+                # allowed only if a lookup was abandoned after the final retry: that takes MaxRetrans + 1 = 2 expiries of LS timers
+                fired = sum(1 for t in s.threads if t.is_timer and t.first_step_done and "ls_retransmit" in t.name)
+                if fired < 2:
+                    bad.append(dict(kind="unicast_request_lost", request=name.decode(), ls_timer_expiries=fired, frames=[p["kind"] for p in fr]))
             if pending and not any(t.is_timer and not t.finished for t in s.threads) and not s.deadlock:
                 bad.append(dict(kind="unicast_stranded_in_buffer", request=name.decode()))
         sns = [p["ext"]["sn"] for p in fr if "sn" in p.get("ext", {})]
@@ -314,6 +314,36 @@ class H4Timeout(H4LocationService):
         return bad
 
 
+class H4Prebuffered(H4LocationService):
+    """request 'one' is already buffered for the lookup; a second request to the same destination races with the reply"""
+
+    def extra_setup(self):
+        H4LocationService.extra_setup(self)
+        self.r.gn_data_request(greq("guc", self.d, b"\x07\xd1\x00\x00one"))
+
+    # timers follow the virtual clock here (they cannot expire before the actors are done), so no lookup can be abandoned
+    # before the reply is processed: both requests must go out exactly once
+    sched_kw = dict(timers_use_clock=True)
+
+    def actors(self):
+        a = H4LocationService.actors(self)
+        return [a[1], a[2]]
+
+    def check(self, s):
+        bad = [b for b in H4LocationService.check(self, s) if b["kind"] not in ("unicast_request_lost",)]
+        gucs = [p for p in self.frames() if p["kind"] == "guc"]
+        n1 = sum(1 for p in gucs if p["payload"].endswith(b"one"))
+        if n1 != 1:      # buffered before the reply, the reply is processed, no timer can expire before: exactly once
+            bad.append(dict(kind="unicast_not_sent_exactly_once_after_reply", request="one", count=n1))
+        n2 = sum(1 for p in gucs if p["payload"].endswith(b"two"))
+        fresh_lookup_by_g2 = any(n == "g2" and G.parse(f)["kind"] == "ls_request" for n, f in self.ll.sent)
+        if n2 > 1 or (n2 == 0 and not fresh_lookup_by_g2):
+            # 'two' may only be missing when it started a lookup of its own after the reply had been consumed (the closed
+            # harness never answers that second lookup, so it is abandoned after the final retry)
+            bad.append(dict(kind="unicast_not_sent_exactly_once_after_reply", request="two", count=n2))
+        return bad
+
+
 class H5Small(H5Dpd):
     def actors(self):
         return H5Dpd.actors(self)[:2]
@@ -327,7 +357,7 @@ class H5Small(H5Dpd):
         return bad
 
 
-HARNESSES = {"H4t": H4Timeout, "H1s": H1Small, "H3s": H3Small, "H4s": H4Small, "H5s": H5Small, "H1": H1Sequence, "H2": H2Cbf, "H2b": H2bSeam, "H3": H3EgoPv, "H4": H4LocationService, "H5": H5Dpd}
+HARNESSES = {"H4p": H4Prebuffered, "H4t": H4Timeout, "H1s": H1Small, "H3s": H3Small, "H4s": H4Small, "H5s": H5Small, "H1": H1Sequence, "H2": H2Cbf, "H2b": H2bSeam, "H3": H3EgoPv, "H4": H4LocationService, "H5": H5Dpd}
 
 
 def make(name):
@@ -336,15 +366,15 @@ def make(name):
 
 def run(ctx):
     thorough = ctx.tier == "thorough"
-    plan = {"H1s": 1, "H2": 1, "H2b": 2, "H3s": 1, "H4s": 1, "H4t": 1, "H5s": 1} if not thorough else \
-           {"H1s": 2, "H1": 1, "H2": 2, "H2b": 3, "H3s": 2, "H3": 1, "H4s": 2, "H4t": 2, "H4": 1, "H5s": 2, "H5": 1}
+    plan = {"H1s": 1, "H2": 1, "H2b": 2, "H3s": 1, "H4s": 1, "H4t": 1, "H4p": 1, "H5s": 1} if not thorough else \
+           {"H1s": 2, "H1": 1, "H2": 2, "H2b": 3, "H3s": 2, "H3": 1, "H4s": 2, "H4t": 2, "H4p": 2, "H4": 1, "H5s": 2, "H5": 1}
     tot_s = tot_steps = 0
     outcomes = 0
     samples = []
     capped = False
     with mp.Pool(16) as pool:
         for name, bound in plan.items():
-            st = SC.explore(make, (name,), bound, SCHED_KW, pool=pool, max_schedules=None)
+            st = SC.explore(make, (name,), bound, dict(SCHED_KW, **getattr(HARNESSES[name], "sched_kw", {})), pool=pool, max_schedules=None)
             tot_s += st["schedules"]
             tot_steps += st["steps"]
             outcomes += len(st["outcomes"])
@@ -371,7 +401,7 @@ def replay(path):
     rec = json.load(open(path))
     print(json.dumps(rec["violation"], indent=1))
     rp = rec["replay"]
-    s, h, bad = SC.execute(lambda: make(rp["harness"]), rp["choices"], SCHED_KW)
+    s, h, bad = SC.execute(lambda: make(rp["harness"]), rp["choices"], dict(SCHED_KW, **getattr(HARNESSES[rp["harness"]], "sched_kw", {})))
     print("frames:", [(n, G.parse(f)["kind"]) for n, f in h.ll.sent])
     print(bad or "ok")
     return 1 if bad else 0
